@@ -183,8 +183,8 @@ def select(pool, budget, rng, per_feature=2):
     return chosen, covered, len(allf)
 
 
-def to_stimulus(steps, bid):
-    return {'id': bid, 'cfg': {'drain': True, 'fetchMax': 1}, 'steps': [dict(s) for s in steps]}
+def to_stimulus(steps, bid, fm=1, we=0):
+    return {'id': bid, 'cfg': {'drain': True, 'fetchMax': fm, 'wideEvery': we}, 'steps': [dict(s) for s in steps]}
 
 
 def _go_run(args):
@@ -401,11 +401,22 @@ def _run2(rep, quick, rng, jobs, futs, fut_g, fut_p, fut_q):
     simq, qcov, qtot = select(pool_live, 50 if quick else 500, rng, per_feature=1 if quick else 3)
     rep.cov['situation_features_in_pool_live_leader'] = qtot
     rep.cov['situation_features_replayed_live_leader'] = qcov
+    nlive = len(simq)
     simb += simq
     pool = pool + pool_live
     rep.cov['situation_features_in_pool'] = ftot
     rep.cov['situation_features_replayed'] = fcov
-    behaviours = [to_stimulus(s, i + 1) for i, s in enumerate(directed + pathb + simb)]
+    # response packing as a dimension: the directed behaviours and the first pool run with one record per
+    # response; the live-leader pool was generated with FetchMax = 2 units, every third record wide (2 units);
+    # the transition cover is replayed with seeded (limit, wide) pairs (the steps are intents)
+    behaviours = []
+    for i, s in enumerate(directed + pathb + simb):
+        fm, we = 1, 0
+        if i >= len(directed + pathb + simb) - nlive:
+            fm, we = 2, 3
+        elif len(directed) <= i < len(directed) + len(pathb):
+            fm, we = rng.choice([(1, 0), (2, 0), (2, 2), (3, 2), (3, 3)])
+        behaviours.append(to_stimulus(s, i + 1, fm, we))
     # 5. execute on the real servers, 6. TLC judges
     with core.scratch('x03') as d:
         trace = execute(behaviours, d, workers=4 if quick else 8, timeout=900 if quick else 2400)
@@ -425,6 +436,15 @@ def _run2(rep, quick, rng, jobs, futs, fut_g, fut_p, fut_q):
     for ev in lines.values():
         acts[ev['a']] = acts.get(ev['a'], 0) + 1
     rep.cov['recorded_steps_by_action'] = acts
+    multi = wide = 0
+    for n, ev in lines.items():
+        pv = lines.get(n - 1)
+        if ev['a'] == 'FRecv' and pv and pv['t'] == ev['t']:
+            f = ev['args']['f']
+            grew = len(ev['st']['flog'][f]) - len(pv['st']['flog'][f])
+            multi += 1 if grew > 1 else 0
+    rep.cov['responses_with_several_records'] = multi
+    rep.cov['behaviours_with_wide_records'] = sum(1 for b in behaviours if b['cfg'].get('wideEvery'))
     rep.cov['reports_observed'] = sum(len(ev['obs']['rp']) for ev in lines.values())
     rep.cov['late_classes'] = {c: sum(1 for ev in lines.values() if ev['obs'].get('late') == c) for c in ('yes', 'no', 'maybe')}
 
